@@ -251,3 +251,5 @@ func vstubCreate(name string) error { return vstubOpen(name) }
 
 // vdeepequal: structural equality following pointers (engine: own heap walk returning a formula; native: reflect).
 func vdeepequal(a, b interface{}) bool { return reflect.DeepEqual(a, b) }
+
+func vprint(name string, v interface{}) { fmt.Printf("VPRINT %s = %v\n", name, v) }
